@@ -187,9 +187,9 @@ pub fn run(args: &Args, rep: &Arc<Report>) {
     let groups = if args.replay.is_some() {
         vec![]
     } else if thorough {
-        vec![ustream::g1(&[0, 1, 2, 5]), ustream::gs(&[1, 2]), ustream::gl()]
+        vec![ustream::g1(&[0, 1, 2, 5]), ustream::gs(&[1, 2]), ustream::gl(), ustream::gw()]
     } else {
-        vec![ustream::g1(&[2]), ustream::gs(&[2]), ustream::gl()]
+        vec![ustream::g1(&[2]), ustream::gs(&[2]), ustream::gl(), ustream::gw()]
     };
     let d = if thorough { 3 } else { 2 };
     drive(args, rep, d, true, groups, |case, labels, local| {
